@@ -13,6 +13,13 @@ any number of genomes), `ops : List (Op ν)` any history of `new / add_gene / mu
 set_expression / replicate / express / get_value` calls on any of its genomes, of any length.  Values are an
 arbitrary type `ν`.
 
+Public attributes.  `allow_mutations`, `on_mutation` and `mutation_rate` are public and may be re-assigned on a live
+genome (`Op.assign`, "bootstrap open, then lock").  "Unless mutations are enabled or an approval callback approves" is
+therefore judged by the settings IN FORCE AT THE MOMENT OF EACH CALL: `CallsUnder env G i st ops` says that whenever
+the history `ops` calls `add_gene` / `mutate` / `rollback_mutation` on genome `i`, that genome's settings at that moment
+lie in the set `G`; `Unauth env` is the set of settings that authorise nothing (mutations disabled, callback — if any —
+never approving).  Histories without assignments are the special case `c20_fixed_gate_calls_under_initial_settings`.
+
 Readings fixed in DESIGN.md: "re-adding a gene" = `add_gene` with a name the genome already has (`ReAdds`);
 "stored value" = what `get_gene` / `export` show (`findGene`, `table`); the hash is `H (canon g)` for an
 injective `H` — `c20_hash_eq_iff` states what the injectivity assumption buys, every other theorem speaks
@@ -24,31 +31,34 @@ variable {ν : Type}
 
 /-! ## Clause 1 — without authorisation nothing changes -/
 
-/-- **No authorisation, no change.**  Take any genome `g` of any lineage whose mutations are disabled and
-    whose approval callback (if it has one) never approves.  After ANY history of operations on it, on its
-    children and on every other genome — re-adding genes, mutating, rolling back, changing expression,
-    replicating, expressing — its gene table is literally the same list (names, values, types, order), hence
-    so are its name→value map, the canonical list and its hash under every hash function. -/
+/-- **No authorisation, no change.**  Take any genome `g` of any lineage and ANY history of operations on it, on
+    its children and on every other genome — re-adding genes, mutating, rolling back, changing expression,
+    replicating, expressing, re-assigning the public gate attributes — such that at every moment one of its
+    `add_gene` / `mutate` / `rollback_mutation` is called, mutations are disabled on it and the approval callback it
+    has then (if any) never approves.  Its gene table stays literally the same list (names, values, types, order),
+    hence so do its name→value map, the canonical list and its hash under every hash function. -/
 theorem c20_unauthorised_history_changes_nothing (env : Env ν) (st : Store ν) (i : Nat) (g : Genome ν)
-    (ops : List (Op ν)) (hi : st.genomes[i]? = some g) (hal : g.allow = false) (hna : NeverApproves env g)
+    (ops : List (Op ν)) (hi : st.genomes[i]? = some g) (hcu : CallsUnder env (Unauth env) i st ops)
     (hre : ReAdds env i st ops) :
     ∃ g', (run env st ops).genomes[i]? = some g' ∧ g'.genes = g.genes ∧ table g' = table g ∧
       canon g' = canon g ∧ ∀ {η : Type} (H : List (Nat × ν) → η), hash H g' = hash H g := by
-  obtain ⟨g', h, hg⟩ := run_unauthorised ops hi hal hna hre
+  obtain ⟨g', h, hg⟩ := run_unauthorised ops hi hcu hre
   refine ⟨g', h, hg, ?_, ?_, ?_⟩
   · simp [table, hg]
   · simp [canon, table, hg]
   · intro η H; simp [hash, canon, table, hg]
 
-/-- **Approval is per gene.**  With mutations disabled, a gene for which the callback never approves a change
-    keeps its whole record (value, type, flags) over any history — whatever is approved for other genes,
-    and even if fresh genes are added. -/
+/-- **Approval is per gene.**  If, whenever the history calls a mutating method on the genome, mutations are
+    disabled and the callback then installed never approves a change of gene `n`, that gene keeps its whole record
+    (value, type, flags) — whatever is approved for other genes, whatever is assigned to the gate attributes in
+    between, and even if fresh genes are added. -/
 theorem c20_unapproved_gene_keeps_its_record (env : Env ν) (st : Store ν) (i : Nat) (g : Genome ν)
-    (ops : List (Op ν)) (hi : st.genomes[i]? = some g) (hal : g.allow = false) (n : Nat) (x : Gene ν)
+    (ops : List (Op ν)) (hi : st.genomes[i]? = some g) (n : Nat) (x : Gene ν)
     (hx : findGene g.genes n = some x)
-    (hnn : ∀ c, g.cb = some c → ∀ k o v r, env.adv c k n o v r ≠ .approve) :
+    (hcu : CallsUnder env (fun a cb => a = false ∧ ∀ c, cb = some c → ∀ k o v r, env.adv c k n o v r ≠ .approve)
+      i st ops) :
     ∃ g', (run env st ops).genomes[i]? = some g' ∧ findGene g'.genes n = some x := by
-  obtain ⟨g', h, ev⟩ := run_evolves env ops st i g hi
+  obtain ⟨g', h, ev⟩ := run_evolves env _ ops st i g hi hcu
   obtain ⟨s, -, hauth, hgenes⟩ := ev.main
   refine ⟨g', h, ?_⟩
   have hl : lastNew s n = none := by
@@ -58,55 +68,89 @@ theorem c20_unapproved_gene_keeps_its_record (env : Env ν) (st : Store ν) (i :
     | some m =>
       exfalso
       obtain ⟨hm, hg, ha⟩ := lastApproved_some_mem hla
-      rcases hauth m hm ha with h' | ⟨c, k, hc, hadv⟩
+      obtain ⟨a, cb, ⟨hal, hnn⟩, h' | ⟨c, k, hc, hadv⟩⟩ := hauth m hm ha
       · rw [hal] at h'; cases h'
       · rw [hg] at hadv; exact hnn c hc _ _ _ _ hadv
-  have := hgenes (Or.inr hal) n x hx
+  have := hgenes (Or.inr fun a c hG => hG.1) n x hx
   rw [hl] at this
   simpa using this
 
-/-- **Approval is per value** ("approves the specific change").  With mutations disabled, after any history
-    every gene that was present is still present with the same record, and its stored value is either the
-    original one or a value `w` for which the callback answered `approve` to a request to set exactly this
-    gene to exactly `w`. -/
-theorem c20_stored_value_is_original_or_approved (env : Env ν) (st : Store ν) (i : Nat) (g : Genome ν)
-    (ops : List (Op ν)) (hi : st.genomes[i]? = some g) (hal : g.allow = false) (n : Nat) (x : Gene ν)
+/-- **Approval is per value** ("approves the specific change").  Let `G` be any set of gate settings with
+    mutations disabled, and let every mutating call of the history happen under a setting in `G`.  Then every gene
+    that was present is still present with the same record, and its stored value is either the original one or a
+    value `w` for which a callback that was installed at such a moment answered `approve` to a request to set
+    exactly this gene to exactly `w`. -/
+theorem c20_stored_value_is_original_or_approved (env : Env ν) (G : Bool → Option Nat → Prop)
+    (hG : ∀ a c, G a c → a = false) (st : Store ν) (i : Nat) (g : Genome ν)
+    (ops : List (Op ν)) (hi : st.genomes[i]? = some g) (hcu : CallsUnder env G i st ops) (n : Nat) (x : Gene ν)
     (hx : findGene g.genes n = some x) :
     ∃ g' w, (run env st ops).genomes[i]? = some g' ∧ findGene g'.genes n = some { x with value := w } ∧
-      (w = x.value ∨ ∃ c k o r, g.cb = some c ∧ env.adv c k n o w r = .approve) := by
-  obtain ⟨g', h, ev⟩ := run_evolves env ops st i g hi
+      (w = x.value ∨ ∃ a c k o r, G a (some c) ∧ env.adv c k n o w r = .approve) := by
+  obtain ⟨g', h, ev⟩ := run_evolves env G ops st i g hi hcu
   obtain ⟨s, -, hauth, hgenes⟩ := ev.main
-  refine ⟨g', (lastNew s n).getD x.value, h, hgenes (Or.inr hal) n x hx, ?_⟩
+  refine ⟨g', (lastNew s n).getD x.value, h, hgenes (Or.inr hG) n x hx, ?_⟩
   unfold lastNew
   cases hla : lastApproved s n with
   | none => left; rfl
   | some m =>
     right
     obtain ⟨hm, hg, ha⟩ := lastApproved_some_mem hla
-    rcases hauth m hm ha with h' | ⟨c, k, hc, hadv⟩
-    · rw [hal] at h'; cases h'
-    · exact ⟨c, k, m.orig, m.reason, hc, by simpa [hg] using hadv⟩
+    obtain ⟨a, cb, hGa, h' | ⟨c, k, hc, hadv⟩⟩ := hauth m hm ha
+    · rw [hG a cb hGa] at h'; cases h'
+    · subst hc; exact ⟨a, c, k, m.orig, m.reason, hGa, by simpa [hg] using hadv⟩
 
-/-- **Changes are logged** (the title of the property).  With mutations disabled, after any history the stored
-    value of a gene is exactly the value written by the last approved log entry added for it since — or the
-    original value if no such entry was added; the log only grows; and every approved entry added was let
-    through by the gate. -/
-theorem c20_value_is_last_approved_logged_value (env : Env ν) (st : Store ν) (i : Nat) (g : Genome ν)
-    (ops : List (Op ν)) (hi : st.genomes[i]? = some g) :
+/-- **Changes are logged, and each is judged by the settings in force when it was made** (the title of the
+    property).  Let every mutating call of the history on genome `i` happen under gate settings in `G` (any set;
+    `fun _ _ => True` is allowed).  Then the log only grows; every approved entry added was let through by a setting
+    in `G` — mutations enabled, or the callback installed then approved exactly this gene / old value / new value —;
+    and, if all settings in `G` have mutations disabled, the stored value of every gene is exactly the value written
+    by the last approved entry added for it, or the original value if there is none. -/
+theorem c20_value_is_last_approved_logged_value (env : Env ν) (G : Bool → Option Nat → Prop) (st : Store ν)
+    (i : Nat) (g : Genome ν) (ops : List (Op ν)) (hi : st.genomes[i]? = some g)
+    (hcu : CallsUnder env G i st ops) :
     ∃ g' s, (run env st ops).genomes[i]? = some g' ∧ g'.log = g.log ++ s ∧
-      (∀ m ∈ s, m.approved = true → Authorised env g m) ∧
-      (g.allow = false → ∀ n x, findGene g.genes n = some x →
+      (∀ m ∈ s, m.approved = true → ∃ a c, G a c ∧ AuthBy env a c m) ∧
+      ((∀ a c, G a c → a = false) → ∀ n x, findGene g.genes n = some x →
         findGene g'.genes n = some { x with value := (lastNew s n).getD x.value }) := by
-  obtain ⟨g', h, ev⟩ := run_evolves env ops st i g hi
+  obtain ⟨g', h, ev⟩ := run_evolves env G ops st i g hi hcu
   obtain ⟨s, hl, hauth, hgenes⟩ := ev.main
   exact ⟨g', s, h, hl, hauth, fun hal => hgenes (Or.inr hal)⟩
 
-/-- The gate settings themselves never change: no history turns `allow_mutations` on or swaps the callback. -/
-theorem c20_gate_settings_are_fixed (env : Env ν) (st : Store ν) (i : Nat) (g : Genome ν)
-    (ops : List (Op ν)) (hi : st.genomes[i]? = some g) :
-    ∃ g', (run env st ops).genomes[i]? = some g' ∧ g'.allow = g.allow ∧ g'.cb = g.cb := by
-  obtain ⟨g', h, ev⟩ := run_evolves env ops st i g hi
-  exact ⟨g', h, ev.allow, ev.cb⟩
+/-- No method ever changes the gate settings: over any history that does not itself ASSIGN to the public attributes
+    of genome `i`, its `allow_mutations`, `on_mutation` and `mutation_rate` stay what they were (no history turns
+    mutations on or swaps the callback behind the user's back). -/
+theorem c20_gate_changes_only_by_assignment (env : Env ν) (st : Store ν) (i : Nat) (g : Genome ν)
+    (ops : List (Op ν)) (hi : st.genomes[i]? = some g) (hna : NoAssign i ops) :
+    ∃ g', (run env st ops).genomes[i]? = some g' ∧ g'.allow = g.allow ∧ g'.cb = g.cb ∧ g'.rate = g.rate :=
+  run_gate_fixed env ops st i g hi hna
+
+/-- … and such a history makes all its calls under the settings the genome starts with (this turns every
+    `CallsUnder` hypothesis below into a hypothesis on the initial settings when nothing is re-assigned). -/
+theorem c20_fixed_gate_calls_under_initial_settings (env : Env ν) (st : Store ν) (i : Nat) (g : Genome ν)
+    (ops : List (Op ν)) (hi : st.genomes[i]? = some g) (hna : NoAssign i ops) :
+    CallsUnder env (fun a c => a = g.allow ∧ c = g.cb) i st ops :=
+  callsUnder_of_noAssign env ops st i g hi hna
+
+/-- **An assignment to a public attribute changes that attribute and nothing else**: gene table, expression
+    states, log, generation, parent hash, canonical list (hence the hash) and every other genome are untouched,
+    and no callback is called.  From then on every method reads the new setting (`c20_mutate_returns_true_iff_authorised`
+    and the other single-call theorems speak about the genome as it is at the moment of the call). -/
+theorem c20_assignment_exact (env : Env ν) (st : Store ν) (i : Nat) (a : Assign) (g : Genome ν)
+    (hi : st.genomes[i]? = some g) (b : Bool) (c : Option Nat) :
+    (step env st (.assign i a)).1.genomes[i]? = some (assign g a) ∧
+    (assign g a).genes = g.genes ∧ (assign g a).expr = g.expr ∧ (assign g a).log = g.log ∧
+    canon (assign g a) = canon g ∧ (step env st (.assign i a)).1.calls = st.calls ∧
+    (∀ j h, j ≠ i → st.genomes[j]? = some h → (step env st (.assign i a)).1.genomes[j]? = some h) ∧
+    (assign g (.allow b)).allow = b ∧ (assign g (.allow b)).cb = g.cb ∧
+    (assign g (.cb c)).cb = c ∧ (assign g (.cb c)).allow = g.allow := by
+  obtain ⟨h1, h2, h3, -, -⟩ := assign_same g a
+  rw [step_assign hi]
+  refine ⟨?_, h1, h2, h3, by simp [canon, table, h1], rfl, ?_, rfl, rfl, rfl, rfl⟩
+  · simpa using getElem?_set_of_some (i := i) (a := assign g a) hi
+  · intro j h hj hh
+    have := getElem?_set_of_some (i := i) (a := assign g a) hh
+    rw [if_neg (fun e => hj e.symm)] at this
+    exact this
 
 /-- In an unauthorised genome no `mutate`, no `rollback_mutation` and no re-`add_gene` ever reports success. -/
 theorem c20_unauthorised_calls_never_succeed (env : Env ν) (st : Store ν) (i : Nat) (g : Genome ν)
@@ -136,7 +180,7 @@ theorem c20_unauthorised_calls_never_succeed (env : Env ν) (st : Store ν) (i :
     strangers); `replicate`, `new`, `express` and `get_value` change no existing genome at all. -/
 theorem c20_operations_touch_only_their_genome (env : Env ν) (st : Store ν) (op : Op ν) (j : Nat) (g : Genome ν)
     (hj : st.genomes[j]? = some g) (ht : op.target ≠ some j) : (step env st op).1.genomes[j]? = some g := by
-  obtain ⟨g', h, -, hfr⟩ := step_frame env st op j g hj
+  obtain ⟨g', h, -, hfr, -, -⟩ := step_frame env st op j g hj
   rw [h, hfr ht]
 
 /-! ## Clause 2 — every refused attempt is logged as unapproved -/
@@ -220,6 +264,10 @@ theorem c20_raising_callback_changes_nothing (env : Env ν) (st : Store ν) (op 
   | validate i => rw [step_query (Or.inl ⟨i, rfl⟩)]
   | listGenes i => rw [step_query (Or.inr (Or.inl ⟨i, rfl⟩))]
   | diff i j => rw [step_query (Or.inr (Or.inr ⟨i, j, rfl⟩))]
+  | assign i a =>
+    cases hi : st.genomes[i]? with
+    | none => rw [step_noid rfl hi] at hr; cases hr
+    | some g => rw [step_assign hi] at hr; cases hr
 
 /-- **A refused rollback is logged as unapproved**: if the gene has an approved mutation to roll back and
     `rollback_mutation` returns `False`, exactly one unapproved entry (this gene, current value → the value
@@ -247,7 +295,7 @@ theorem c20_refused_rollback_logged_unapproved (env : Env ν) (st : Store ν) (i
 theorem c20_log_is_append_only (env : Env ν) (st : Store ν) (i : Nat) (g : Genome ν) (ops : List (Op ν))
     (hi : st.genomes[i]? = some g) :
     ∃ g' s, (run env st ops).genomes[i]? = some g' ∧ g'.log = g.log ++ s := by
-  obtain ⟨g', h, ev⟩ := run_evolves env ops st i g hi
+  obtain ⟨g', h, ev⟩ := run_evolves env _ ops st i g hi (callsUnder_true env i ops st)
   obtain ⟨s, hl, -, -⟩ := ev.main
   exact ⟨g', s, h, hl⟩
 
@@ -319,25 +367,28 @@ theorem c20_unauthorised_child_equals_parent (env : Env ν) (st : Store ν) (hw 
 
 /-- **Parent and child, unauthorised, over time.**  Replicate an unauthorised genome (with any requested
     mutations) and let parent and child live through any further history of re-adds, mutates, rollbacks,
-    expression changes, replications, on them and on anything else: at the end both still have exactly the
+    expression changes, replications, attribute assignments, on them and on anything else, in which their mutating
+    methods are only ever called under settings that authorise nothing: at the end both still have exactly the
     gene table, canonical list and hash the parent had before the replication. -/
 theorem c20_unauthorised_lineage_keeps_hash (env : Env ν) (st : Store ν) (hw : WF st) (i : Nat)
     (muts : List (Nat × ν)) (inh : Bool) (p : Genome ν) (hi : st.genomes[i]? = some p) (hal : p.allow = false)
     (hna : NeverApproves env p) (id : Nat) (hret : (step env st (.replicate i muts inh)).2 = .child id)
     (ops : List (Op ν))
+    (hcp : CallsUnder env (Unauth env) i (step env st (.replicate i muts inh)).1 ops)
+    (hcc : CallsUnder env (Unauth env) id (step env st (.replicate i muts inh)).1 ops)
     (hrp : ReAdds env i (step env st (.replicate i muts inh)).1 ops)
     (hrc : ReAdds env id (step env st (.replicate i muts inh)).1 ops) :
     ∃ p' c', (run env (step env st (.replicate i muts inh)).1 ops).genomes[i]? = some p' ∧
       (run env (step env st (.replicate i muts inh)).1 ops).genomes[id]? = some c' ∧
       p'.genes = p.genes ∧ c'.genes = p.genes ∧ canon p' = canon p ∧ canon c' = canon p ∧
       ∀ {η : Type} (H : List (Nat × ν) → η), hash H p' = hash H p ∧ hash H c' = hash H p := by
-  obtain ⟨c, hc, hcg, -, hca, hcn⟩ :=
+  obtain ⟨c, hc, hcg, -, -, -⟩ :=
     c20_unauthorised_child_equals_parent env st hw i muts inh p hi hal hna id hret
   have hp1 := c20_replicate_preserves_parent env st i muts inh i p hi
   obtain ⟨p', hp', hpg, -, hpc, -⟩ :=
-    c20_unauthorised_history_changes_nothing env _ i p ops hp1 hal hna hrp
+    c20_unauthorised_history_changes_nothing env _ i p ops hp1 hcp hrp
   obtain ⟨c', hc', hcg', -, hcc, -⟩ :=
-    c20_unauthorised_history_changes_nothing env _ id c ops hc hca hcn hrc
+    c20_unauthorised_history_changes_nothing env _ id c ops hc hcc hrc
   refine ⟨p', c', hp', hc', hpg, hcg'.trans hcg, hpc, ?_, ?_⟩
   · simp [canon, table, hcg'.trans hcg]
   · intro η H
@@ -375,50 +426,52 @@ theorem c20_refused_replication_mutation_logged (env : Env ν) (st : Store ν) (
     rwa [hba, hbc] at this
 
 /-- **Lineage, over time.**  After a replication let parent and child live through ANY further history (both
-    may be operated on, replicated again, …).  With mutations disabled, at the end every gene the parent had
-    at replication time is still in both, with the same record, and if the two values differ then an approved,
-    gate-authorised mutation of that gene was logged since — in the child's log or in the part of the
-    parent's log added after the replication. -/
-theorem c20_child_differs_only_in_authorised_history (env : Env ν) (st : Store ν) (hw : WF st) (i : Nat)
-    (muts : List (Nat × ν)) (inh : Bool) (p : Genome ν) (hi : st.genomes[i]? = some p) (hal : p.allow = false)
-    (id : Nat) (hret : (step env st (.replicate i muts inh)).2 = .child id) (ops : List (Op ν)) :
+    may be operated on, replicated again, have their gate attributes re-assigned, …).  Let `G` be a set of gate
+    settings with mutations disabled that contains the parent's settings at replication and the settings in force
+    at every later mutating call on parent or child.  At the end every gene the parent had at replication time is
+    still in both, with the same record, and if the two values differ then an approved mutation of that gene was
+    logged since — in the child's log or in the part of the parent's log added after the replication — and it was
+    let through by a setting in `G` (the callback installed at that moment approved exactly that change). -/
+theorem c20_child_differs_only_in_authorised_history (env : Env ν) (G : Bool → Option Nat → Prop)
+    (hG : ∀ a c, G a c → a = false) (st : Store ν) (hw : WF st) (i : Nat)
+    (muts : List (Nat × ν)) (inh : Bool) (p : Genome ν) (hi : st.genomes[i]? = some p) (hGp : G p.allow p.cb)
+    (id : Nat) (hret : (step env st (.replicate i muts inh)).2 = .child id) (ops : List (Op ν))
+    (hcp : CallsUnder env G i (step env st (.replicate i muts inh)).1 ops)
+    (hcc : CallsUnder env G id (step env st (.replicate i muts inh)).1 ops) :
     ∃ p' c' sp, (run env (step env st (.replicate i muts inh)).1 ops).genomes[i]? = some p' ∧
       (run env (step env st (.replicate i muts inh)).1 ops).genomes[id]? = some c' ∧
       p'.log = p.log ++ sp ∧
       ∀ n x, findGene p.genes n = some x → ∃ wp wc,
         findGene p'.genes n = some { x with value := wp } ∧ findGene c'.genes n = some { x with value := wc } ∧
-        (wc = wp ∨ (∃ m ∈ c'.log, m.gene = n ∧ m.approved = true ∧ Authorised env p m) ∨
-          (∃ m ∈ sp, m.gene = n ∧ m.approved = true ∧ Authorised env p m)) := by
+        (wc = wp ∨ (∃ m ∈ c'.log, m.gene = n ∧ m.approved = true ∧ ∃ a c, G a c ∧ AuthBy env a c m) ∨
+          (∃ m ∈ sp, m.gene = n ∧ m.approved = true ∧ ∃ a c, G a c ∧ AuthBy env a c m)) := by
   have hwp : WFG p := hw p (List.mem_of_getElem? hi)
   cases hr : replicate env st.calls st.draws p muts inh with
   | raised k d => rw [step_replicate_raised hi hr] at hret; cases hret
   | ok c k d =>
     have hstep := step_replicate_ok hi hr
-    rw [hstep] at hret ⊢
+    rw [hstep] at hret hcp hcc ⊢
     cases hret
     obtain ⟨ev, -⟩ := replicate_evolves hr
     obtain ⟨hbg, hbl, hba, hbc, -⟩ := childBase_spec inh hwp
     -- the parent and the child after the further history
     have hp1 : (st.genomes ++ [c])[i]? = some p := getElem?_append_of_some _ hi
     have hc1 : (st.genomes ++ [c])[st.genomes.length]? = some c := by simp
-    obtain ⟨p', hp', evp⟩ := run_evolves env ops ⟨st.genomes ++ [c], k, d⟩ i p hp1
-    obtain ⟨c', hc', evc⟩ := run_evolves env ops ⟨st.genomes ++ [c], k, d⟩ st.genomes.length c hc1
-    have evc' := ev.weaken.trans evc
+    obtain ⟨p', hp', evp⟩ := run_evolves env G ops ⟨st.genomes ++ [c], k, d⟩ i p hp1 hcp
+    obtain ⟨c', hc', evc⟩ := run_evolves env G ops ⟨st.genomes ++ [c], k, d⟩ st.genomes.length c hc1 hcc
+    have evc' := (ev.weaken.toG (G := G) (by rw [hba, hbc]; exact hGp)).trans evc
     obtain ⟨sp, hlp, hap, hgp⟩ := evp.main
     obtain ⟨sc, hlc, hac, hgc⟩ := evc'.main
     rw [hbl, List.nil_append] at hlc
     refine ⟨p', c', sp, hp', hc', hlp, ?_⟩
     intro n x hx
-    refine ⟨_, _, hgp (Or.inr hal) n x hx, hgc (Or.inr (hba.trans hal)) n x (hbg ▸ hx), ?_⟩
+    refine ⟨_, _, hgp (Or.inr hG) n x hx, hgc (Or.inr hG) n x (hbg ▸ hx), ?_⟩
     unfold lastNew
     cases hlc' : lastApproved sc n with
     | some m =>
       right; left
       obtain ⟨hm, hg, ha⟩ := lastApproved_some_mem hlc'
-      refine ⟨m, hlc ▸ hm, hg, ha, ?_⟩
-      have := hac m hm ha
-      unfold Authorised at this ⊢
-      rwa [hba, hbc] at this
+      exact ⟨m, hlc ▸ hm, hg, ha, hac m hm ha⟩
     | none =>
       cases hlp' : lastApproved sp n with
       | some m =>
@@ -595,7 +648,7 @@ theorem c20_rollback_restores_preceding_value (env : Env ν) (st : Store ν) (i 
     · rw [step_mutate_done hi e]; simpa using getElem?_set_of_some (i := i) (a := applyMut g og n v .user) hi
     · rw [step_mutate_done hi e] at hmut; cases hmut
     · rw [step_mutate_raised hi e] at hmut; cases hmut
-  obtain ⟨g₂', h₂', ev⟩ := run_evolves env ops _ i _ hg₁
+  obtain ⟨g₂', h₂', ev⟩ := run_evolves env _ ops _ i _ hg₁ (callsUnder_true env i ops _)
   rw [h₂] at h₂'; cases h₂'
   obtain ⟨s, hl, -, -⟩ := ev.main
   have hlog : g₂.log = (g.log ++ [⟨n, og.value, v, .user, true⟩]) ++ s := by simpa [applyMut] using hl
@@ -737,12 +790,16 @@ private def hist : List (Op Nat) :=
   [.mutate 0 0 7, .add 0 ⟨0, 9, .dormant, false, .silenced⟩, .rollback 0 0, .replicate 0 [(0, 7), (1, 5)] true,
    .mutate 1 0 7, .setExpr 0 0 .silenced, .express 0 [1], .mutate 0 1 3]
 
+/-- under `envNo` every setting with mutations disabled authorises nothing -/
+local macro "unauth_envNo" : term =>
+  `(fun (a : Bool) (c : Option Nat) (h : (!a) = true) =>
+      (⟨by simpa using h, fun _ _ _ _ _ _ _ => by simp [envNo]⟩ : Unauth envNo a c))
+
 /-- `c20_unauthorised_history_changes_nothing`: a history with a refused mutate, a refused re-add, a rollback,
     a replication with requested mutations, operations on the child — all hypotheses hold … -/
-example : st0.genomes[0]? = some parent ∧ parent.allow = false ∧ NeverApproves envNo parent ∧
+example : st0.genomes[0]? = some parent ∧ CallsUnder envNo (Unauth envNo) 0 st0 hist ∧
     ReAdds envNo 0 st0 hist := by
-  refine ⟨rfl, rfl, ?_, ?_⟩
-  · intro c _ k n o v r; simp [envNo]
+  refine ⟨rfl, callsUnder_of_B (P := fun a _ => !a) unauth_envNo _ (by decide), ?_⟩
   · simp only [ReAdds, hist, and_true]
     refine ⟨?_, ?_, ?_, ?_, ?_, ?_, ?_, ?_⟩ <;> intro x g h hg <;> first | cases h | skip
     -- the one `add`: gene 0 is present at that moment
@@ -759,6 +816,48 @@ example : trace envNo st0 hist =
     ((run envNo st0 hist).genomes.map fun g => (table g, g.log.map fun m => (m.gene, m.new, m.approved))) =
       [([(0, 1), (1, 2)], [(0, 7, false), (1, 3, false)]),
        ([(0, 1), (1, 2)], [(0, 7, false), (1, 5, false), (0, 7, false)])] := by decide
+
+/-- … also with the public attributes re-assigned in between (another never-approving callback installed,
+    mutations switched on and off again while nothing is called, the callback removed): the mutating calls all
+    happen under settings that authorise nothing, and they are all refused -/
+example :
+    let h : List (Op Nat) := [.mutate 0 0 7, .assign 0 (.cb (some 5)), .mutate 0 0 7, .assign 0 (.allow true),
+      .assign 0 (.allow false), .rollback 0 0, .replicate 0 [(0, 7)] true, .assign 0 (.cb none), .mutate 0 1 3,
+      .assign 1 (.rate true), .mutate 1 0 7]
+    CallsUnder envNo (Unauth envNo) 0 st0 h ∧ CallsUnder envNo (Unauth envNo) 1 st0 h ∧
+    trace envNo st0 h = [.ret false, .assigned, .ret false, .assigned, .assigned, .ret false, .child 1, .assigned,
+      .ret false, .assigned, .ret false] ∧
+    (run envNo st0 h).genomes.map table = [[(0, 1), (1, 2)], [(0, 1), (1, 2)]] :=
+  ⟨callsUnder_of_B (P := fun a _ => !a) unauth_envNo _ (by decide),
+   callsUnder_of_B (P := fun a _ => !a) unauth_envNo _ (by decide), by decide, by decide⟩
+
+/-- "bootstrap open, then lock": a genome built with mutations enabled is mutated (authorised, logged approved),
+    then `allow_mutations = False` is assigned; from that moment `mutate` and `rollback_mutation` are refused and
+    logged as unapproved, the value and the hash stay (`c20_assignment_exact`, then
+    `c20_unauthorised_history_changes_nothing` from the state after the assignment); a child made after the lock
+    is locked too -/
+example :
+    let opened : Store Nat := ⟨[newGenome true none false [gene0, gene1]], 0, 0⟩
+    let h : List (Op Nat) := [.mutate 0 0 7, .assign 0 (.allow false), .mutate 0 0 9, .rollback 0 0,
+      .replicate 0 [(0, 5)] true, .mutate 1 0 5]
+    trace envNo opened h = [.ret true, .assigned, .ret false, .ret false, .child 1, .ret false] ∧
+    ((run envNo opened h).genomes.map fun g => (table g, g.log.map fun m => (m.gene, m.orig, m.new, m.approved))) =
+      [([(0, 7), (1, 2)], [(0, 1, 7, true), (0, 7, 9, false), (0, 7, 1, false)]),
+       ([(0, 7), (1, 2)], [(0, 7, 5, false), (0, 7, 5, false)])] ∧
+    CallsUnder envNo (Unauth envNo) 0 (run envNo opened (h.take 2)) (h.drop 2) :=
+  ⟨by decide, by decide, callsUnder_of_B (P := fun a _ => !a) unauth_envNo _ (by decide)⟩
+
+/-- `c20_stored_value_is_original_or_approved` / `c20_value_is_last_approved_logged_value` with a callback swapped
+    in mid-history: under `envA` callback 0 approves (gene 0 := 7) only and callback 1 the complement … all calls
+    happen with mutations disabled -/
+example :
+    let h : List (Op Nat) := [.mutate 0 0 7, .assign 0 (.cb (some 1)), .mutate 0 0 7, .mutate 0 1 4]
+    CallsUnder envA (fun a _ => a = false) 0 st0 h ∧ trace envA st0 h = [.ret true, .assigned, .ret true, .ret false] :=
+  ⟨callsUnder_of_B (P := fun a _ => !a) (fun a _ h => by simpa using h) _ (by decide), by decide⟩
+
+/-- `c20_gate_changes_only_by_assignment` / `c20_fixed_gate_calls_under_initial_settings`: the first example history
+    assigns nothing -/
+example : NoAssign 0 hist ∧ NoAssign 1 hist := by unfold NoAssign; decide
 
 /-- the same history under the callback that approves (gene 0 := 7): exactly that change goes through, in parent
     and child, gene 1 keeps its value (`c20_unapproved_gene_keeps_its_record`,
@@ -816,7 +915,15 @@ example : parent.allow = false ∧ NeverApproves envNo parent ∧
   ⟨rfl, fun _ _ _ _ _ _ _ => by simp [envNo], by decide⟩
 
 /-- `c20_unauthorised_lineage_keeps_hash`: a further history on parent (0), child (1) and a grandchild meets
-    the `ReAdds` hypotheses for both -/
+    the `CallsUnder` and `ReAdds` hypotheses for both -/
+example :
+    CallsUnder envNo (Unauth envNo) 0 (step envNo st0 (.replicate 0 [(0, 7)] true)).1
+      [.mutate 1 0 7, .rollback 0 0, .assign 1 (.cb none), .replicate 1 [(1, 5)] false, .mutate 2 1 5, .setExpr 0 1 .silenced] ∧
+    CallsUnder envNo (Unauth envNo) 1 (step envNo st0 (.replicate 0 [(0, 7)] true)).1
+      [.mutate 1 0 7, .rollback 0 0, .assign 1 (.cb none), .replicate 1 [(1, 5)] false, .mutate 2 1 5, .setExpr 0 1 .silenced] :=
+  ⟨callsUnder_of_B (P := fun a _ => !a) unauth_envNo _ (by decide),
+   callsUnder_of_B (P := fun a _ => !a) unauth_envNo _ (by decide)⟩
+
 example :
     ReAdds envNo 0 (step envNo st0 (.replicate 0 [(0, 7)] true)).1
       [.mutate 1 0 7, .rollback 0 0, .replicate 1 [(1, 5)] false, .mutate 2 1 5, .setExpr 0 1 .silenced] ∧
